@@ -246,6 +246,25 @@ def _failure(d, u):
         if l and l.fn and l.fn not in ('arm', 'slice', 'macro'):
             fn = l.fn
             break
+    if label is None:
+        # a trait-level postcondition (`ensures r.nview() == Self::from_view(x)`): the obligation is
+        # named by the labelled spec fn the template put at the head of the same impl block
+        for s in spans:
+            l = _origin(u, s['line_start'], s)
+            if l and l.origin[0] == 'repo':
+                k = s['line_start'] - 1
+                lo = max(0, k - 80)
+                while k >= lo:
+                    t = u.lines[k].text
+                    m = re.search(r'//:\s*(\S+)(?:\s+(\S+))?\s*$', t)
+                    if m and u.lines[k].origin[0] == 'tmpl':
+                        label = m.group(1)
+                        props = m.group(2).split(',') if m.group(2) else None
+                        break
+                    if re.match(r'\s*}\s*$', t) and u.lines[k].origin[0] == 'tmpl':
+                        break
+                    k -= 1
+                break
     kind = d['message']
     snippet = ''
     ps = prim[0]
